@@ -40,6 +40,8 @@ pub enum Route {
     CloneOfConv,
     /// the Enc source of a by-reference conversion, dropped after the conversion
     ConvSource,
+    /// an inherent constructor outside KeyInit (index into `special_ctors()`)
+    Special(usize),
 }
 
 impl Route {
@@ -52,12 +54,14 @@ impl Route {
             Route::ConvVal => "from_enc",
             Route::CloneOfConv => "clone_of_converted",
             Route::ConvSource => "source_of_from_ref",
+            Route::Special(i) => special_ctors()[*i].1,
         }
     }
     pub fn parse(s: &str) -> Option<Route> {
         [Route::New, Route::NewFromSlice, Route::Clone, Route::ConvRef, Route::ConvVal, Route::CloneOfConv, Route::ConvSource]
             .into_iter()
             .find(|r| r.name() == s)
+            .or_else(|| special_ctors().iter().position(|c| c.1 == s).map(Route::Special))
     }
 }
 
@@ -71,6 +75,65 @@ pub struct Case {
     pub relocate: bool,
     pub drop_source_first: bool,
     pub off: u8,
+}
+
+/// Constructors outside `KeyInit` (inherent APIs): each is a route of its own for the types that have it.
+pub type SpecialCtor = unsafe fn(*mut u8, &[u8]) -> bool;
+
+unsafe fn ctor_bcrypt_setup(slot: *mut u8, key: &[u8]) -> bool {
+    // bcrypt's key setup: init, salted expansion, one round of the cost loop
+    if key.is_empty() {
+        return false;
+    }
+    let salt: Vec<u8> = key.iter().rev().map(|b| b ^ 0x5a).chain([1u8, 2, 3]).take(16).collect();
+    let mut b = blowfish_zb::Blowfish::bc_init_state();
+    b.salted_expand_key(&salt, key);
+    b.bc_expand_key(key);
+    b.bc_expand_key(&salt);
+    unsafe { core::ptr::write(slot as *mut blowfish_zb::Blowfish, b) };
+    true
+}
+
+unsafe fn ctor_rc2_eff(slot: *mut u8, key: &[u8]) -> bool {
+    if key.is_empty() || key.len() > 128 {
+        return false;
+    }
+    unsafe { core::ptr::write(slot as *mut rc2_z::Rc2, rc2_z::Rc2::new_with_eff_key_len(key, 40)) };
+    true
+}
+
+macro_rules! ctor_tf_tweak {
+    ($name:ident, $t:ty, $n:expr) => {
+        unsafe fn $name(slot: *mut u8, key: &[u8]) -> bool {
+            let k: [u8; $n] = match key.try_into() {
+                Ok(k) => k,
+                Err(_) => return false,
+            };
+            let tweak = [0x9du8; 16];
+            unsafe { core::ptr::write(slot as *mut $t, <$t>::new_with_tweak(&k, &tweak)) };
+            true
+        }
+    };
+}
+ctor_tf_tweak!(ctor_tf256, threefish_z::Threefish256, 32);
+ctor_tf_tweak!(ctor_tf512, threefish_z::Threefish512, 64);
+ctor_tf_tweak!(ctor_tf1024, threefish_z::Threefish1024, 128);
+ctor_tf_tweak!(ctor_tfnc256, threefish_nc_z::Threefish256, 32);
+ctor_tf_tweak!(ctor_tfnc512, threefish_nc_z::Threefish512, 64);
+ctor_tf_tweak!(ctor_tfnc1024, threefish_nc_z::Threefish1024, 128);
+
+/// (type name, route label, constructor)
+pub fn special_ctors() -> Vec<(&'static str, &'static str, SpecialCtor)> {
+    vec![
+        ("blowfish_zb::Blowfish", "bcrypt_setup", ctor_bcrypt_setup as SpecialCtor),
+        ("rc2_z::Rc2", "new_with_eff_key_len", ctor_rc2_eff),
+        ("threefish_z::Threefish256", "new_with_tweak", ctor_tf256),
+        ("threefish_z::Threefish512", "new_with_tweak", ctor_tf512),
+        ("threefish_z::Threefish1024", "new_with_tweak", ctor_tf1024),
+        ("threefish_nc_z::Threefish256", "new_with_tweak", ctor_tfnc256),
+        ("threefish_nc_z::Threefish512", "new_with_tweak", ctor_tfnc512),
+        ("threefish_nc_z::Threefish1024", "new_with_tweak", ctor_tfnc1024),
+    ]
 }
 
 #[inline(never)]
@@ -114,17 +177,17 @@ pub struct Calib {
 struct Engine<'a> {
     reg: &'a Registry,
     anchors: &'a Anchors,
-    calib: HashMap<(usize, bool, usize, bool), Calib>,
+    calib: HashMap<(usize, bool, usize, bool, usize), Calib>,
     probes: Vec<u8>,
 }
 
 impl<'a> Engine<'a> {
-    fn build_plain(&self, slots: &mut Slots, t: &TypeInfo, key: &[u8], ctx: u32, prefill: u8) -> Option<SlotRef> {
+    fn build_plain(&self, slots: &mut Slots, t: &TypeInfo, key: &[u8], ctx: u32, prefill: u8, special: usize) -> Option<SlotRef> {
         let _junk: Vec<u8> = vec![ctx as u8; 64 + 40 * ctx as usize];
         let s = slots.alloc(((ctx as usize) % 3) * 64);
         let p = slots.ptr(s);
         unsafe { core::ptr::write_bytes(p, prefill, t.size) };
-        let ctor = t.new_from_slice;
+        let ctor = if special == usize::MAX { t.new_from_slice } else { special_ctors()[special].2 };
         let mut f = || guard(|| unsafe { ctor(p, key) });
         match perturbed(ctx * 3, &mut f) {
             Ok(true) => Some(s),
@@ -180,8 +243,8 @@ impl<'a> Engine<'a> {
     /// `used`: calibrate on instances that have been used (fixed calls) before they are read, so that
     /// key-dependent state deposited inside the instance by a call (a cached batch, a scratch buffer)
     /// belongs to the alarm set of used instances
-    fn calibrate(&mut self, ty: usize, mask: bool, klen: usize, used: bool) -> &Calib {
-        if !self.calib.contains_key(&(ty, mask, klen, used)) {
+    fn calibrate(&mut self, ty: usize, mask: bool, klen: usize, used: bool, special: usize) -> &Calib {
+        if !self.calib.contains_key(&(ty, mask, klen, used, special)) {
             let t = self.reg.types[ty].clone();
             cpufeatures::sim::bump_epoch();
             cpufeatures::sim::set_mask(mask);
@@ -196,7 +259,7 @@ impl<'a> Engine<'a> {
             for (ki, key) in keys.iter().enumerate() {
                 let mut images: Vec<Vec<u8>> = Vec::new();
                 for ctx in 0..3u32 {
-                    match self.build_plain(&mut slots, &t, key, ctx + ki as u32 % 2, [0x00, 0xFF, 0xA5][ctx as usize]) {
+                    match self.build_plain(&mut slots, &t, key, ctx + ki as u32 % 2, [0x00, 0xFF, 0xA5][ctx as usize], special) {
                         Some(s) => {
                             if used {
                                 use_instance(&t, slots.ptr(s));
@@ -233,7 +296,7 @@ impl<'a> Engine<'a> {
             let mut live_set: HashSet<usize> = HashSet::new();
             let scratch = slots.alloc(0);
             for key in keys.iter().take(2) {
-                if let Some(s) = self.build_plain(&mut slots, &t, key, 0, 0) {
+                if let Some(s) = self.build_plain(&mut slots, &t, key, 0, 0, special) {
                     let good = slots.ptr(s) as *const u8;
                     if self.observable(&t, good).is_some() {
                         for &pos in &k {
@@ -249,9 +312,9 @@ impl<'a> Engine<'a> {
             }
             let mut live: Vec<usize> = live_set.into_iter().collect();
             live.sort();
-            self.calib.insert((ty, mask, klen, used), Calib { k, live });
+            self.calib.insert((ty, mask, klen, used, special), Calib { k, live });
         }
-        &self.calib[&(ty, mask, klen, used)]
+        &self.calib[&(ty, mask, klen, used, special)]
     }
 
     /// Run one case; returns (residue bytes of the dropped storage, type actually dropped)
@@ -294,6 +357,13 @@ impl<'a> Engine<'a> {
                 ops.push(Op::Conv { id: 2, task: 0, src: 1, to: Role::Both, by_ref: true });
                 target = 1;
             }
+            Route::Special(_) => {
+                // a World instance provides the slot; it is keyed with a fixed key of the family's nominal
+                // length (special constructors may accept lengths KeyInit rejects), dropped in place and
+                // replaced by the specially constructed value below
+                let fam_klen = fam.key_size;
+                ops.push(Op::New { id: 1, task: 0, fam: f, role: target_role, key: vec![0x11; fam_klen], fixed: false });
+            }
         }
         for op in &ops {
             match w.apply(op) {
@@ -302,12 +372,28 @@ impl<'a> Engine<'a> {
                 Err(v) => return Err(format!("violation while building: {}", v.detail)),
             }
         }
+        if let Route::Special(i) = c.route {
+            let r = w.insts.get(&target).and_then(|x| x.reals.first()).cloned().ok_or("no realisation")?;
+            let tt = &reg.types[r.ty];
+            let p = w.slots.ptr(r.slot);
+            guard(|| unsafe { (tt.drop)(p) })?;
+            unsafe { core::ptr::write_bytes(p, 0xDD, tt.size) };
+            let ctor = special_ctors()[i].2;
+            if !guard(|| unsafe { ctor(p, &c.key) })? {
+                // leave a valid value behind for World's bookkeeping
+                let _ = guard(|| unsafe { (tt.new_from_slice)(p, &vec![0x11; fam.key_size]) });
+                return Err("special constructor rejected key".into());
+            }
+            if let Some(inst) = w.insts.get_mut(&target) {
+                inst.key = Vec::new(); // World's fresh-reference oracle does not apply to this instance
+            }
+        }
         if c.drop_source_first {
             if let Some(s) = source {
                 let _ = w.apply(&Op::Drop { id: s, task: 0 });
             }
         }
-        if c.used {
+        if c.used && !matches!(c.route, Route::Special(_)) {
             let bs = fam.block;
             for (dir, shape, n) in [(Dir::Enc, Shape::Blocks, 3u32), (Dir::Dec, Shape::Block, 1), (Dir::Enc, Shape::BlockB2b, 1)] {
                 if !target_role.can(dir) {
@@ -373,7 +459,8 @@ struct Outcome {
 
 fn judge(e: &mut Engine, c: &Case) -> Result<Outcome, String> {
     let (residue, dty) = e.run_case(c)?;
-    let cal = e.calibrate(dty, c.mask, c.key.len(), c.used);
+    let special = if let Route::Special(i) = c.route { i } else { usize::MAX };
+    let cal = e.calibrate(dty, c.mask, c.key.len(), c.used, special);
     let live_nonzero: Vec<usize> = cal.live.iter().copied().filter(|&i| residue[i] != 0).collect();
     let kdep_nonzero: Vec<usize> = cal.k.iter().copied().filter(|&i| residue[i] != 0).collect();
     let live: HashSet<usize> = cal.live.iter().copied().collect();
@@ -392,6 +479,11 @@ fn routes_for(reg: &Registry, t: &TypeInfo) -> Vec<Route> {
     }
     if fam.split && t.role == Role::Enc {
         r.push(Route::ConvSource);
+    }
+    for (i, (tn, _, _)) in special_ctors().iter().enumerate() {
+        if *tn == t.name {
+            r.push(Route::Special(i));
+        }
     }
     r
 }
